@@ -488,11 +488,17 @@ func (p *c10Proc) close() {
 
 func (p *c10Proc) trace() string {
 	s := p.stderr.String()
+	// keep the last step announcement and what follows (the panic trace)
+	if i := strings.LastIndex(s, "c10-step "); i >= 0 {
+		s = s[i:]
+	}
 	if len(s) > 6000 {
 		s = s[:6000]
 	}
 	return s
 }
+
+var c10StepRe = regexp.MustCompile(`(?m)^c10-step (\d+)$`)
 
 var c10FrameRe = regexp.MustCompile(`(?m)^github\.com/enfein/mieru/v3/(pkg|apis)/([\w/]+)\.(\(\*?\w+\)\.\w+|\w+)`)
 
@@ -537,29 +543,36 @@ func c10Judge(c *core.Ctx, k c10Case, pred c10Prediction, nSetup int, res c10Res
 		return fmt.Sprintf("C10/%s/%s/%s", kind, what, sel)
 	}
 	if res.died {
-		// which step was in flight is not known exactly; the trace names the site
+		// the child announces every step on stderr before executing it: the last announcement before the
+		// trace is the arrival that was being handled
 		site := c10PanicSite(res.trace)
-		var guilty *c10Seg
-		for i := range k.Steps {
-			tok := ""
-			if nSetup+i < len(pred.Tokens) {
-				tok, _ = c10Class(pred.Tokens[nSetup+i])
-			}
-			if tok == "panic" || guilty == nil {
-				guilty = &k.Steps[i]
-			}
+		step := -1
+		if m := c10StepRe.FindAllStringSubmatch(res.trace, -1); len(m) > 0 {
+			fmt.Sscan(m[len(m)-1][1], &step)
 		}
-		what := fmt.Sprintf("the %s process DIED while handling this sequence of arrivals (model prediction: %s). Trace:\n%s", kind, pred.Raw, res.trace)
 		sel := "-"
-		if len(k.Steps) == 1 {
-			sel = fmt.Sprintf("type=%d/sid=%s/key=%s", k.Steps[0].Proto, k.Steps[0].SidSel, k.Steps[0].KeyUser)
+		if step >= 0 && step < len(k.Steps) {
+			g := k.Steps[step]
+			sel = fmt.Sprintf("type=%d/sid=%s/key=%s", g.Proto, g.SidSel, g.KeyUser)
+			if g.Kind != "seg" {
+				sel = g.Kind
+			}
 		}
+		tr := res.trace
+		if i := strings.Index(tr, "panic:"); i >= 0 {
+			tr = tr[i:]
+		} else if i := strings.Index(tr, "fatal error:"); i >= 0 {
+			tr = tr[i:]
+		}
+		what := fmt.Sprintf("the %s process DIED while handling arrival %d of this case (model prediction: %s). Trace:\n%s", kind, step, pred.Raw, tr)
 		c.Violate(fmt.Sprintf("C10/%s/panic/%s/%s", kind, site, sel), what, k)
 		return
 	}
 	if res.rep.Error != "" {
 		if strings.HasPrefix(res.rep.Error, "setup:") {
+			c10ResMu.Lock()
 			c.Res.Discarded++
+			c10ResMu.Unlock()
 			c.Note("case discarded, set-up did not complete (%s): %s", kind, res.rep.Error)
 			return
 		}
@@ -674,6 +687,8 @@ func c10Judge(c *core.Ctx, k c10Case, pred c10Prediction, nSetup int, res c10Res
 // ------------------------------------------------------------------------------------------------
 // pool: one child per worker, restarted after a death
 
+var c10ResMu sync.Mutex // guards the plain counters of core.Result this scenario updates from its workers
+
 type c10Job struct {
 	k      c10Case
 	pred   c10Prediction
@@ -705,7 +720,7 @@ func c10RunJobs(c *core.Ctx, jobs []c10Job, workers int) {
 		}
 		for w := 0; w < n; w++ {
 			wg.Add(1)
-			go func(w int) {
+			go func(w int, kd string) {
 				defer wg.Done()
 				var p *c10Proc
 				defer func() { p.close() }()
@@ -727,9 +742,11 @@ func c10RunJobs(c *core.Ctx, jobs []c10Job, workers int) {
 					c10Judge(c, j.k, j.pred, j.nSetup, res)
 					kj, _ := json.Marshal(j.k)
 					c.Eval(string(kj), !died && rep.Error == "")
+					c10ResMu.Lock()
 					c.Res.TracesValidated++
+					c10ResMu.Unlock()
 				}
-			}(w)
+			}(w, kd)
 		}
 	}
 	wg.Wait()
